@@ -10,6 +10,11 @@ import os
 import sys
 import traceback
 
+# tensors here are tiny and the checks parallelise by processes: one intra-op thread per process (must be set
+# before torch is imported), otherwise 16 worker processes x 16 threads oversubscribe the machine
+os.environ.setdefault("OMP_NUM_THREADS", "1")
+os.environ.setdefault("MKL_NUM_THREADS", "1")
+
 sys.path.insert(0, os.path.dirname(os.path.dirname(os.path.abspath(__file__))))
 
 from harness import common  # noqa: E402
